@@ -137,6 +137,41 @@ CHECKS.update({
     ),
 })
 
+CHECKS.update({
+    "C02": (
+        "Hypothesis-generated one-operation programs over the whole op registry x options x operand kinds/layouts x incoming gradients; complex-step VJP through independent NumPy / naive-loop definitions; exact convention checks",
+        "Generated search per operation (95 of 98 registered Operation classes are exercised here, the remaining three "
+        "internal ones by C05; the list is measured at run time and written to evidence): every keyword option of the "
+        "public signature, broadcasting, 0-d/empty/non-contiguous operands and arbitrary (also F-ordered) incoming "
+        "gradients; each operand's gradient is compared with the complex-step derivative of an independent reference, "
+        "masked-out elements must receive exactly 0, and the documented conventions at kink points are asserted exactly. "
+        "Exploration only.",
+        "References are NumPy kernels or naive loops written from the docstrings; ties of max/min reductions and "
+        "points within 1e-7 of a kink are checked structurally only; one test-pinned defect (gru output grad shape) is a "
+        "recorded known finding.",
+        "DESIGN.md §3 C02",
+    ),
+    "C12": (
+        "Hypothesis-generated op / layer / DAG programs with caller-owned arrays, index objects and seed gradients; checksum and sentinel-write oracles",
+        "Generated search over all operations and programs with caller-owned ndarrays, observed index objects and "
+        "caller-owned seed gradients: checksums before/after forward and backward, tensors' data unchanged by backward, "
+        "gradient memory shared only where data memory is shared, sentinel writes into every .grad must not reach any "
+        "data, any non-aliasing gradient or the caller's seed, and copies own their data and gradient. Exploration only.",
+        "Index objects are observed by wrapping the harness' own decoder; sizes as in C02/C01.",
+        "DESIGN.md §3 C12",
+    ),
+    "C15": (
+        "Hypothesis-generated nesting trees of the three scopes (with / decorator / to_numpy, re-entrant, exceptions at any depth) executed with real syntax against a stack model; untracked programs vs NumPy reference",
+        "Generated search over nestings of no_autodiff / mem_guard_on / mem_guard_off with try/raise nodes and depth-0 "
+        "default switches; after every enter/exit/exception the module switches must equal a stack model. Programs run "
+        "while tracking is off must equal the NumPy reference and record nothing (no creator/base/consumer, gradients "
+        "and writeable flags untouched, in-place writes into the same ndarray), and backward() inside no_autodiff must "
+        "not disturb graphs recorded earlier. Exploration only.",
+        "Single-threaded; the process-wide default is only changed at depth 0 as the property states.",
+        "DESIGN.md §3 C15",
+    ),
+})
+
 NOT_YET = {
 }
 
